@@ -22,7 +22,8 @@ EXPLANATION = (
     'lambdas fill an entry only when absent and never erase.  Equality of results across histories when scores tie (heap '
     'order) and the behaviour of multiprocessing itself are not decided.'
     ' Third round: no working object of parse_sentence has static / thread storage (locals:automatic).'
-    ' Fifth round: the rule cache never shrinks during a search (lambdas included).')
+    ' Fifth round: the rule cache never shrinks during a search (lambdas included).'
+    ' Sixth and seventh round: no module-level state in the grammar modules (R11.5), Tree carries every field through pickle and the categories use the generated hash (R11.3), no option name captured by a named parameter of run() (R11.4).')
 TRUSTED = ['CPython ast', 'clang-14 front end', 'sa/pyx.py normaliser', 'multiprocessing.Pool.apply_async/.get semantics']
 
 REL = 'depccg/parsing.py'
